@@ -146,6 +146,29 @@ fn handle(req: &Value) -> Value {
             });
             r.unwrap_or_else(|_| json!({"panic": true}))
         }
+        "sym_vs_stored" => {
+            // the symmetric face integrals of an integrator next to the faces stored by the tessellation converted from it
+            let gens: Vec<DVec3> = req["gens"].as_array().unwrap().iter().map(v3).collect();
+            let mask: Option<Vec<bool>> = req["mask"].as_array().map(|m| m.iter().map(|b| b.as_bool().unwrap()).collect());
+            let r = std::panic::catch_unwind(|| {
+                let vi = meshless_voronoi::VoronoiIntegrator::build(&gens, mask.as_deref(), v3(&req["anchor"]), v3(&req["width"]), dim(&req["dim"]), req["periodic"].as_bool().unwrap_or(false));
+                let sym: Vec<Value> = vi.compute_face_integrals_sym::<meshless_voronoi::integrals::AreaIntegral>().iter()
+                    .map(|f| json!({"left": f.left(), "right": f.right(), "shift": f.shift().map(j3), "area": f.integral().area})).collect();
+                let vor = Voronoi::from(&vi);
+                let stored: Vec<Value> = vor.faces().iter().map(|f| json!({"left": f.left(), "right": f.right(), "shift": f.shift().map(j3), "area": f.area()})).collect();
+                json!({"sym": sym, "stored": stored})
+            });
+            r.unwrap_or_else(|_| json!({"panic": true}))
+        }
+        "with_faces_lowdim" => {
+            // requesting face information for a single cell of a 1D / 2D tessellation must be rejected (panic)
+            let gens: Vec<DVec3> = req["gens"].as_array().unwrap().iter().map(v3).collect();
+            let vi = meshless_voronoi::VoronoiIntegrator::build(&gens, None, v3(&req["anchor"]), v3(&req["width"]), dim(&req["dim"]), req["periodic"].as_bool().unwrap_or(false));
+            let cell = vi.get_cell_at(0).unwrap().clone();
+            let per_cell = std::panic::catch_unwind(std::panic::AssertUnwindSafe(|| { let c = cell.with_faces(); c.face_count() }));
+            let whole = std::panic::catch_unwind(std::panic::AssertUnwindSafe(|| { let w = vi.clone().with_faces(); w.cells_iter().count() }));
+            json!({"per_cell_rejected": per_cell.is_err(), "whole_integrator_rejected": whole.is_err(), "faces_if_accepted": per_cell.ok()})
+        }
         "halfspace_clip" => {
             let hs = meshless_voronoi::HalfSpace::new(v3(&req["n"]), v3(&req["p"]), None, None);
             json!({"r": hs.clip(v3(&req["v"]))})
